@@ -122,6 +122,14 @@ def pairs():
     add("constant: quotient of iteration values", prog("min x", ["x >= i / 2 for i in 1..4"], define=X), prog("min x", ["x >= 0.5", "x >= 1", "x >= 1.5"], define=X))
     add("constant: constant from constants", prog("max x", ["x <= c"], where=["let a = 9", "let b = 2", "let c = a / b + b / a * 0"], define=X), prog("max x", ["x <= 4.5"], define=X))
     add("constant: difference and product of whole numbers", prog("max x", ["x <= p", "y >= s"], where=["let p = 3 * 4 - 5", "let s = 2 - 5 + 4"], define=X), prog("max x", ["x <= 7", "y >= 1"], define=X))
+    # quantified declarations that produce the same name twice: like the hand-unrolled text, accepted when the domains agree,
+    # rejected when they differ
+    add("repeated declared name, same domain", prog("min x_1 + x_2", ["x_1 >= 1"], define=["x_i as IntegerRange(0, 5) for (i, c) in zip([1, 2, 1], [5, 6, 7])"]),
+        prog("min x_1 + x_2", ["x_1 >= 1"], define=["x_1 as IntegerRange(0, 5)", "x_2 as IntegerRange(0, 5)", "x_1 as IntegerRange(0, 5)"]))
+    add("both rejected: repeated declared name, domains differ", prog("min x_1 + x_2", ["x_1 >= 1"], define=["x_i as IntegerRange(0, c) for (i, c) in zip([1, 2, 1], [5, 6, 7])"]),
+        prog("min x_1 + x_2", ["x_1 >= 1"], define=["x_1 as IntegerRange(0, 5)", "x_2 as IntegerRange(0, 6)", "x_1 as IntegerRange(0, 7)"]))
+    add("both rejected: node entered by two edges of different weight", prog("min x_B + x_C", ["x_B >= 1"], where=["let H = Graph { A -> [ B: 2, C: 3 ], C -> [ B: 4 ], B }"], define=["x_v as IntegerRange(0, w) for (u, v, w) in edges(H)"]),
+        prog("min x_B + x_C", ["x_B >= 1"], define=["x_B as IntegerRange(0, 2)", "x_C as IntegerRange(0, 3)", "x_B as IntegerRange(0, 4)"]))
     return out
 
 
@@ -257,7 +265,8 @@ def canonical(pair_label, text, RT):
     if is_unknown(r):
         return ("error", "transformer not evaluable: %r" % (r,))
     if not (isinstance(r, Var) and r.path.endswith("Result::Ok")):
-        return ("error", "transformer rejects it: %r" % (r,))
+        import c19rt
+        return ("error", "transformer rejects it: %r" % (r,), "rejected:" + str(c19rt.error_kind(r)) if isinstance(r, Var) else None)
     u = roundtrip.find_unknown(r.args[0])
     if u is not None:
         return ("error", "transformer not evaluable: %r" % (u,))
@@ -282,6 +291,10 @@ def check(F, R, Gm, tier="quick", only=None):
         a = canonical(label, rolled, RT)
         b = canonical(label, unrolled, RT)
         key = label.replace(" ", "-")
+        if isinstance(a, tuple) and isinstance(b, tuple) and len(a) > 2 and len(b) > 2 and a[2] is not None and a[2] == b[2] and label.startswith("both rejected"):
+            # a pair whose hand-unrolled text is itself rejected: the construct must be rejected the same way
+            R.ob("EXPAND-EQUIV", key, True, "packages/rooc/src/parser", "both texts are %s" % a[2])
+            continue
         if isinstance(a, tuple) or isinstance(b, tuple):
             why = "rolled: %s" % (a[1] if isinstance(a, tuple) else "ok") + " | unrolled: %s" % (b[1] if isinstance(b, tuple) else "ok")
             R.ob("EXPAND-EQUIV", key, False, "packages/rooc/src/parser", why[:500])
